@@ -33,7 +33,7 @@ def random_mark_schema(rng):
         elif r < 0.7:
             spec["excludes"] = rng.choice(["grp", "grp", "g2", "grp g2"])
         if rng.random() < 0.4:
-            spec["group"] = rng.choice(["grp", "grp", "g2", "grp g2", "g2 grp"])     # a mark may be in several groups
+            spec["group"] = rng.choice(["grp", "grp", "g2", "grp g2", "g2 grp", "xgrp", "g22"])     # several groups; names containing other names
         if rng.random() < 0.4:
             spec["attrs"] = {"k": {"default": 0}}
         marks[nm] = spec
